@@ -38,6 +38,8 @@
       model was written from (`decide`), and the table's layout is the model's `instrument`.
 -/
 import RoProofs.PromPairs
+import RoProofs.PromDriver
+import RoProofs.PromStamped
 import RoProofs.PromCounters
 import RoModel.Spec.Prom
 import RoGen.Prom
@@ -144,6 +146,42 @@ theorem in_is_source_values_sync (ms : List (AnyM α)) (sub : Ctx) (raw : List (
 theorem in_is_source_prefix (ms : List (AnyM α)) (hot : Bool) (sub : Ctx) (raw : List (Notif α)) (cut : Option Nat) :
     ∃ l, l <+: gate raw ∧ (counters ms (run hot sub (instrument ms) raw cut).cfg).inN = countNext l :=
   ⟨_, head_seen_prefix hot sub AnyM.before (tailI ms) raw cut, (counters_pinned ms hot sub raw cut).inN⟩
+
+/-- A static sub-domain: chains of operators that keep the checkpoint (`Keeps`: every value they
+    emit carries a non-nil context descending from a value they received — the pointwise, the
+    cutting and the replaying operators of the catalogue, `RoProofs.PromStamped`) over a source that
+    emits no nil context. There the counters are exactly the ones the property states, for every
+    source mode, script and cut. -/
+theorem counters_exact_static (ks : List (Keeps α)) (hot : Bool) (sub : Ctx) (raw : List (Notif α))
+    (cut : Option Nat) (hn : NonNil raw) :
+    Exact (chainK ks) (run hot sub (instrument (chainK ks)) raw cut) := by
+  apply counters_exact_partial
+  · intro l hl
+    exact count_of_goodL l (tailSeen_good ks _ (tinv_run ks hot sub raw cut hn) l hl)
+  · exact source_nonNil_of_script (chainK ks) hot sub raw cut hn
+
+/-! ### (1b) every chain the driver / harness can build -/
+
+/-- every stage of the driver's table other than `Max`, any parameters / variant / callback -/
+theorem every_stage_related (op : String) (p : List Int) (var : String) (cbs : List Ro.Driver.Cb) (a : AnyM Int)
+    (h : Ro.Driver.Drivers.Prom.stageOf op p var cbs = some a) (hmax : op ≠ "Max") (htag : GoodTags cbs) :
+    Related a a := stageOf_related op p var cbs a h hmax htag
+
+/-- the driver's per-subscription result with the licence on and off, every case it accepts that
+    has no `Max` and no reserved marker: same trace, releases and source subscriptions -/
+theorem driver_results_transparent (ee hot : Bool) (subS chain script : String) (cut : Option Nat)
+    (eI eP : List (AnyM Int × Bool)) (raw : List (Notif Int))
+    (hsub : (Ro.Driver.parseCtx subS).isNil = false) (hg : ChainGood chain)
+    (hI : Ro.Driver.Drivers.Prom.parseChain true chain = some eI)
+    (hP : Ro.Driver.Drivers.Prom.parseChain false chain = some eP)
+    (hraw : Ro.Driver.parseScript (Ro.Driver.parseCtx subS) script = some raw) :
+    (Ro.Driver.Drivers.Prom.runSub ee true hot (Ro.Driver.parseCtx subS) (eI.map (·.1)) raw cut).trace =
+      (Ro.Driver.Drivers.Prom.runSub ee false hot (Ro.Driver.parseCtx subS) (eP.map (·.1)) raw cut).trace ∧
+    (Ro.Driver.Drivers.Prom.runSub ee true hot (Ro.Driver.parseCtx subS) (eI.map (·.1)) raw cut).rel =
+      (Ro.Driver.Drivers.Prom.runSub ee false hot (Ro.Driver.parseCtx subS) (eP.map (·.1)) raw cut).rel ∧
+    (Ro.Driver.Drivers.Prom.runSub ee true hot (Ro.Driver.parseCtx subS) (eI.map (·.1)) raw cut).ssub =
+      (Ro.Driver.Drivers.Prom.runSub ee false hot (Ro.Driver.parseCtx subS) (eP.map (·.1)) raw cut).ssub :=
+  driver_transparent ee hot subS chain script cut eI eP raw hsub hg hI hP hraw
 
 /-! ### (3) stand-alone counters -/
 
@@ -326,6 +364,37 @@ end Ro.C19
 #print axioms Ro.C19.wrappers_ok
 #print axioms Ro.C19.layout_is_instrument
 #print axioms Ro.C19.pipe_rows_match_model
+#print axioms Ro.C19.counters_exact_static
+#print axioms Ro.C19.every_stage_related
+#print axioms Ro.C19.driver_results_transparent
+#print axioms Ro.Prom.stageTable_ok
+#print axioms Ro.Prom.standalone_related
+#print axioms Ro.Prom.parseChain_related
+#print axioms Ro.Prom.transparent_related
+#print axioms Ro.Prom.plain_related
+#print axioms Ro.Prom.tinv_run
+#print axioms Ro.Prom.pairIgnoreElements
+#print axioms Ro.Prom.pairMapTo
+#print axioms Ro.Prom.pairHead
+#print axioms Ro.Prom.pairElementAt
+#print axioms Ro.Prom.pairElementAtOrDefault
+#print axioms Ro.Prom.pairOnErrorReturn
+#print axioms Ro.Prom.pairThrowIfEmpty
+#print axioms Ro.Prom.pairSum
+#print axioms Ro.Prom.pairClamp
+#print axioms Ro.Prom.pairMaterializeDematerialize
+#print axioms Ro.Prom.pairFind
+#print axioms Ro.Prom.pairSkipWhile
+#print axioms Ro.Prom.pairTakeWhile
+#print axioms Ro.Prom.pairFirst
+#print axioms Ro.Prom.pairMapErr
+#print axioms Ro.Prom.pairScan
+#print axioms Ro.Prom.pairDistinctBy
+#print axioms Ro.Prom.pairTail
+#print axioms Ro.Prom.pairMin
+#print axioms Ro.Prom.pairLast
+#print axioms Ro.Prom.pairReduce
+#print axioms Ro.Prom.pairSkipLast
 #print axioms Ro.Prom.pairCntNext
 #print axioms Ro.Prom.pairCntError
 #print axioms Ro.Prom.pairCntComplete
